@@ -709,7 +709,11 @@ def check_bundles(world, got, case, latency, viol, stats, rel, lo=1000,
                 offs0 = [x for x in gates if x[1][1] == gm[2]]
                 if hit is None:
                     hit = i
-                if offs0 and abs(offs0[0][0] - want_off0) <= 1e-6:
+                if pay['has_gate']:
+                    fits = bool(offs0) and abs(offs0[0][0] - want_off0) <= 1e-6
+                else:
+                    fits = not offs0
+                if fits:
                     hit = i
                     break
         if hit is None:
